@@ -419,7 +419,39 @@ func checkC31(p *Prog, r *Report) {
 			if strings.HasSuffix(fnPkg(f), "/src/clean") {
 				continue // `plz clean` is asked to remove them
 			}
-			if !allowed[fnName(f)] {
+			okCaller := allowed[fnName(f)]
+			// a private helper called from an allowed caller itself - and, for Build, only on the edge where buildTarget
+			// has failed (the failure branch of Build written as a function); buildTarget and what it calls are satellites
+			// of Build too and are NOT allowed
+			bt := p.Fn("build", "buildTarget")
+			for _, af := range []*ssa.Function{p.Fn("build", "Build"), p.Fn("build", "retrieveArtifacts")} {
+				if af == nil || f == bt || !isSatelliteOf(f, af) {
+					continue
+				}
+				sites := privateCallSites(f)
+				all := len(sites) > 0
+				for _, st := range sites {
+					if st.Parent() != af {
+						all = false
+						continue
+					}
+					if af.Name() == "Build" {
+						failed := false
+						for _, fc := range factsAt(st) {
+							if x, eq, ok := isNilCmp(fc.V); ok && eq != fc.Val && isResultOfFn(resolveLoad(x), bt) {
+								failed = true
+							}
+						}
+						if !failed {
+							all = false
+						}
+					}
+				}
+				if all {
+					okCaller = true
+				}
+			}
+			if !okCaller {
 				bad = fnName(f)
 			}
 		}
